@@ -83,7 +83,8 @@ Inductive effect :=
 | Return (e : cexpr)
 | Store (target : string) (e : cexpr)        (* target = e, e already converted to the target's type *)
 | PtrAdd (target : string) (e : cexpr)       (* pointer += e (e converted to ptrdiff_t) *)
-| Local (x : string) (e : cexpr).            (* T x = e; a local integer object *)
+| Local (x : string) (e : cexpr)             (* T x = e; a local integer object *)
+| Assert (e : cexpr).                        (* SBEPP_ASSERT(e): the handler is called iff e is 0 *)
 
 Definition eff_target (f : effect) : string :=
   match f with
@@ -91,6 +92,7 @@ Definition eff_target (f : effect) : string :=
   | Store t _ => t ++ "="
   | PtrAdd t _ => t ++ "+="
   | Local x _ => x ++ ":="
+  | Assert _ => "assert"
   end.
 
 (* statements run in order; a store is visible to the statements after it
@@ -103,4 +105,6 @@ Fixpoint effs_eval (env : list (string * Z)) (fs : list effect) : option (list Z
   | Store t e :: r => obind (ceval env e) (fun v => obind (effs_eval ((t, v) :: env) r) (fun vs => Some (v :: vs)))
   | PtrAdd t e :: r => obind (ceval env e) (fun v => obind (effs_eval env r) (fun vs => Some (v :: vs)))
   | Local x e :: r => obind (ceval env e) (fun v => obind (effs_eval ((x, v) :: env) r) (fun vs => Some (v :: vs)))
+  | Assert e :: r => obind (ceval env e) (fun v => if v =? 0 then Some (0 :: nil) else
+                     obind (effs_eval env r) (fun vs => Some (v :: vs)))
   end.
